@@ -19,9 +19,10 @@
 (*   bool "F"|"T" ; int "zero"|"pos" ; list "absent"|"emptylist"|"val"     *)
 (*   timestamp    : "absent" | "epoch0"  (code-ms == 0)                    *)
 (*                  | "aligned" | "subms" | "tzoff" (non-UTC offset)       *)
-(*                  | "unlucky" (int(dt.timestamp()*1000) == exact ms - 1) *)
-(*                  | "drift"   (fromtimestamp(ms/1000) is 1us early, so   *)
-(*                               the ms-truncated instant changes; >=2242) *)
+(*                  | "unlucky" (int(dt.timestamp()*1000) is the exact ms  *)
+(*                               moved 1 ms toward zero; ms-aligned only)  *)
+(*                  | "drift"   (fromtimestamp(ms/1000) is 1us off the     *)
+(*                               exact millisecond; instants >= 2^33 s)    *)
 (* Wire values add "nokey" (key omitted) and "none" (key present, None),   *)
 (* "ms0","msA",... for millisecond integers.  Nested objects are records   *)
 (* with a presence flag (p on the model side, has on the wire side).       *)
@@ -156,6 +157,7 @@ NoStep == [p |-> FALSE, attempt |-> "absent", next_attempt_timestamp |-> "absent
 NoWait == [p |-> FALSE, scheduled_end_timestamp |-> "absent"]
 NoCb   == [p |-> FALSE, callback_id |-> "absent", result |-> "absent", error |-> NoErr]
 NoInv  == [p |-> FALSE, result |-> "absent", error |-> NoErr]
+RawInv == [p |-> FALSE, result |-> "rawdict", error |-> NoErr]     \* not an object at all: the raw empty wire dict {}
 
 WNoExec == [has |-> FALSE, InputPayload |-> "nokey"]
 WNoCtx  == [has |-> FALSE, ReplayChildren |-> "nokey", Result |-> "nokey", Error |-> WNoErr]
@@ -239,9 +241,12 @@ OpFromDict(w) ==
    callback_details |-> IF CbNonEmpty(w.CallbackDetails)
         THEN [p |-> TRUE, callback_id |-> w.CallbackDetails.CallbackId,
               result |-> Get(w.CallbackDetails.Result), error |-> ReadErr(w.CallbackDetails.Error)] ELSE NoCb,
+   \* lines 775-779: `chained_invoke_details = None` and then `if chained_invoke_details := data.get(...)`: the walrus
+   \* rebinds the SAME name, so an empty dict {} (falsy) is what ends up in the Operation (K5), not None
    chained_invoke_details |-> IF InvNonEmpty(w.ChainedInvokeDetails)
         THEN [p |-> TRUE, result |-> Get(w.ChainedInvokeDetails.Result),
-              error |-> ReadErr(w.ChainedInvokeDetails.Error)] ELSE NoInv]
+              error |-> ReadErr(w.ChainedInvokeDetails.Error)]
+        ELSE IF w.ChainedInvokeDetails.has THEN RawInv ELSE NoInv]
 
 (* to_json_dict / from_json_dict (855-926): the four timestamps, each behind a truthiness test *)
 JsonTs(w, Conv(_)) ==
@@ -396,8 +401,8 @@ OpFlat(pf, o) ==
   <<pf \o "callback_details.callback_id", o.callback_details.callback_id>>,
   <<pf \o "callback_details.result", o.callback_details.result>> >>
   \o ErrFlat(pf \o "callback_details.error", o.callback_details.error)
-  \o << <<pf \o "chained_invoke_details", Pres(o.chained_invoke_details.p)>>,
-  <<pf \o "chained_invoke_details.result", o.chained_invoke_details.result>> >>
+  \o << <<pf \o "chained_invoke_details", IF o.chained_invoke_details = RawInv THEN "rawdict" ELSE Pres(o.chained_invoke_details.p)>>,
+  <<pf \o "chained_invoke_details.result", IF o.chained_invoke_details = RawInv THEN "absent" ELSE o.chained_invoke_details.result>> >>
   \o ErrFlat(pf \o "chained_invoke_details.error", o.chained_invoke_details.error)
 
 RECURSIVE OpsFlatFrom(_, _, _)
@@ -458,15 +463,17 @@ Norm(v) == CASE v = "empty" -> "absent"                    \* empty optional str
              [] v \in {"subms", "submsT"} -> "S"           \* millisecond truncation
              [] v \in {"tzoff", "tzoffU"} -> "Z"           \* same instant, other tzinfo
              [] OTHER -> v
-Lost(a, b) == {a[j][1] : j \in {i \in 1..Len(a) : a[i][2] \notin {"obj", "noobj"}
-                                          /\ (i > Len(b) \/ b[i][1] # a[i][1] \/ Norm(a[i][2]) # Norm(b[i][2]))}}
+Lost(a, b) == {a[j][1] : j \in {i \in 1..Len(a) :
+                   \/ a[i][2] \notin {"obj", "noobj"} /\ (i > Len(b) \/ b[i][1] # a[i][1] \/ Norm(a[i][2]) # Norm(b[i][2]))
+                   \/ i <= Len(b) /\ b[i][2] = "rawdict"}}          \* a value of the wrong type where an object or None belongs
 
 -----------------------------------------------------------------------------
 (* The named deviations of the code, characterised on the INSTANCE (not on the computed round trip).
    K1 context-details-dropped : Operation.to_dict emits only Result for ContextDetails
    K2 epoch0-timestamp        : `if ms := ...` / `if ts := ...` skip a millisecond value of 0
-   K3 ms-rounding             : int(dt.timestamp() * 1000) lands 1 ms early for some ms-aligned instants
-   K4 far-future-us-drift     : fromtimestamp(ms / 1000) is 1 us early for some instants >= 2^33 s *)
+   K3 ms-rounding             : int(dt.timestamp() * 1000) lands 1 ms toward zero for some ms-aligned instants
+   K4 far-future-us-drift     : fromtimestamp(ms / 1000) is 1 us off the exact millisecond for some instants >= 2^33 s
+   K5 chained-invoke-empty-dict : Operation.from_dict leaves the raw {} in chained_invoke_details when the wire dict is empty *)
 ErrSurvivors(pf, e) == {pf \o k : k \in {j \in {"message", "type", "data", "stack_trace"} : Norm(e[j]) # "absent"}}
 OpK1(pf, o) == IF o.context_details.p
                THEN One(o.context_details.replay_children = "T", pf \o "context_details.replay_children")
@@ -475,6 +482,9 @@ OpK1(pf, o) == IF o.context_details.p
 OpTs(pf, o, tok) == One(o.start_timestamp = tok, pf \o "start_timestamp") \cup One(o.end_timestamp = tok, pf \o "end_timestamp")
                     \cup One(o.step_details.next_attempt_timestamp = tok, pf \o "step_details.next_attempt_timestamp")
                     \cup One(o.wait_details.scheduled_end_timestamp = tok, pf \o "wait_details.scheduled_end_timestamp")
+OpK5(pf, o, vals) == One(o.chained_invoke_details.p /\ o.chained_invoke_details.result \in vals /\ ~o.chained_invoke_details.error.p,
+                         pf \o "chained_invoke_details")
+OpsK5(pf, s, vals) == UNION {OpK5(pf \o ToString(i - 1) \o ".", s[i], vals) : i \in 1..Len(s)}
 OpsK1(pf, s)      == UNION {OpK1(pf \o ToString(i - 1) \o ".", s[i]) : i \in 1..Len(s)}
 OpsTs(pf, s, tok) == UNION {OpTs(pf \o ToString(i - 1) \o ".", s[i], tok) : i \in 1..Len(s)}
 
@@ -485,11 +495,21 @@ K1of(x) == CASE x.cls = "Operation" -> OpK1("", x.v)
 TsOf(x, tok) == CASE x.cls = "Operation" -> OpTs("", x.v, tok)
              [] x.cls = "InvocationInput" -> OpsTs("initial_execution_state.operations.", x.v.initial_execution_state.operations, tok)
              [] OTHER -> {}
+K5of(x, vals) == CASE x.cls = "Operation" -> OpK5("", x.v, vals)
+             [] x.cls = "InvocationInput" -> OpsK5("initial_execution_state.operations.", x.v.initial_execution_state.operations, vals)
+             [] x.cls \in {"StateOutput", "CheckpointUpdatedExecutionState"} -> IF x.v.opsKey = "list" THEN OpsK5("operations.", x.v.ops, vals) ELSE {}
+             [] x.cls = "CheckpointOutput" -> IF x.v.opsKey = "list" /\ x.v.nes = "dict" THEN OpsK5("new_execution_state.operations.", x.v.ops, vals) ELSE {}
+             [] OTHER -> {}
+K5enc(x) == K5of(x, {"absent", "empty"})     \* the SDK's to_dict omits a falsy Result
+K5dec(x) == K5of(x, {"absent"})              \* an exact encoder omits only None
 K2of(x) == TsOf(x, "epoch0")
 K3of(x) == TsOf(x, "unlucky")
 K4of(x) == TsOf(x, "drift")
-Expected(x) == [dict |-> K1of(x), json |-> K1of(x) \cup K2of(x) \cup K3of(x) \cup K4of(x),
-                idict |-> {}, ijson |-> K2of(x) \cup K4of(x), carry |-> {}]
+Expected(x) == IF x.cls \in {"StateOutput", "CheckpointUpdatedExecutionState", "CheckpointOutput"}
+               THEN [NoLoss EXCEPT !.idict = K5dec(x)]          \* decode-only classes
+               ELSE
+               [dict |-> K1of(x) \cup K5enc(x), json |-> K1of(x) \cup K2of(x) \cup K3of(x) \cup K4of(x) \cup K5enc(x),
+                idict |-> K5dec(x), ijson |-> K2of(x) \cup K4of(x) \cup K5dec(x), carry |-> {}]
 
 (* The losses the transcribed code actually has *)
 DecodeGot(x) == IF x.cls = "CheckpointOutput" THEN CkptFlat(CkptFromDict(CkptWire(x.v)))
@@ -529,6 +549,7 @@ UpdateCarriesOptions(x) == Losses(x).carry = {}
 Sigs(x) == LET l == Losses(x) a == UnionOf(l) IN
    One(a \cap K1of(x) # {}, "context-details-dropped") \cup One(a \cap K2of(x) # {}, "epoch0-timestamp")
    \cup One(a \cap K3of(x) # {}, "ms-rounding") \cup One(a \cap K4of(x) # {}, "far-future-us-drift")
+   \cup One(a \cap K5enc(x) # {}, "chained-invoke-empty-dict")
    \cup One(~OnlyKnownL(l, Expected(x)), "UNEXPECTED")
 
 (* INVARIANTS (each evaluates the round trips once) *)
@@ -545,6 +566,7 @@ Probe_NoContextDetailsDropped == "context-details-dropped" \notin Sigs(inst)
 Probe_NoEpoch0Timestamp       == "epoch0-timestamp" \notin Sigs(inst)
 Probe_NoMsRounding            == "ms-rounding" \notin Sigs(inst)
 Probe_NoFarFutureDrift        == "far-future-us-drift" \notin Sigs(inst)
+Probe_NoChainedInvokeEmptyDict == "chained-invoke-empty-dict" \notin Sigs(inst)
 Probe_NothingLost             == Lossless(inst)
 
 -----------------------------------------------------------------------------
@@ -617,7 +639,9 @@ OpArch == {OpBase,
            [OpBase EXCEPT !.name = "val", !.start_timestamp = "subms", !.sub_type = "Step",
                           !.step_details = [p |-> TRUE, attempt |-> "pos", next_attempt_timestamp |-> "aligned", result |-> "val", error |-> ErrFullV]],
            [OpBase EXCEPT !.operation_type = "WAIT", !.parent_id = "val", !.end_timestamp = "tzoff",
-                          !.wait_details = [p |-> TRUE, scheduled_end_timestamp |-> "unlucky"]]}
+                          !.wait_details = [p |-> TRUE, scheduled_end_timestamp |-> "unlucky"]],
+           [OpBase EXCEPT !.operation_type = "CHAINED_INVOKE", !.status = "STARTED", !.sub_type = "ChainedInvoke",
+                          !.chained_invoke_details = [p |-> TRUE, result |-> "absent", error |-> NoErr]]}
 OpSeqs == {<<>>} \cup {<<a>> : a \in OpArch} \cup {<<a, b>> : a \in OpArch, b \in OpArch}
 OpSeqs1 == {<<>>} \cup {<<a>> : a \in OpArch}
 InDom == [durable_execution_arn : ReqStr, checkpoint_token : ReqStr,
@@ -701,6 +725,7 @@ Row(x) == LET l == Losses(x) w == WireOf(x) a == UnionOf(l) IN
    dict |-> l.dict, json |-> l.json, idict |-> l.idict, ijson |-> l.ijson, carry |-> l.carry,
    sigs |-> One(a \cap K1of(x) # {}, "context-details-dropped") \cup One(a \cap K2of(x) # {}, "epoch0-timestamp")
             \cup One(a \cap K3of(x) # {}, "ms-rounding") \cup One(a \cap K4of(x) # {}, "far-future-us-drift")
+            \cup One(a \cap K5enc(x) # {}, "chained-invoke-empty-dict")
             \cup One(~OnlyKnownL(l, Expected(x)), "UNEXPECTED")]
 
 Init     == \E s \in Slices : inst \in SliceSet(s)
